@@ -13,7 +13,8 @@ EXPLANATION = (
     "by-reference arguments are matched by type equality, by-value ones by castability.  (R5) every "
     "conditional construct reaches the condition-type check, which accepts exactly numeric types.  (R10) no function reads the element-type field of an ArrayElement node without its index list (a whole array `A()` is not one of its elements); (R11) the by-value argument check accepts an array only for an array parameter of the very same element type, for all 30 pairs (there is no conversion for arrays); (R12) the number of arguments and the number of parameters of a user-defined subprogram are compared for equality, not order."
     " (R16) every match of the VM on the variant of a value treats the four numeric variants alike with respect to raising Type mismatch; (R17) the FOR checker applies the cast-compatibility predicate to the lower bound, the upper bound and the step."
-    " (R18 = C09.R18) no set or map keyed by raw text.")
+    " (R18 = C09.R18) no set or map keyed by raw text."
+    " (R19 = C13.R13) every pass of the checker starts from the default DEFtype letter table: a DEFtype statement further down does not retype the parameters of a procedure above it in one pass and not in the other.")
 NOT_DECIDED = [
     "stability of the verdict under renaming of identifiers",
     "that one local ill-forming edit is rejected *in the edited statement* (position clause)",
@@ -768,3 +769,7 @@ def run(ctx):
     # the checker and the run time agree on which element a name denotes only if neither tells spellings apart
     from . import c09
     c09.r18_no_container_keyed_by_raw_text(ctx, "C12.R18")
+    # the type of an unsuffixed parameter is the same in the signature the calls are checked against and in the body
+    # that is generated: both passes start from the default DEFtype table and meet the DEFtype statements in order
+    from . import c13
+    c13.r13_every_pass_starts_from_the_default_letter_table(ctx, "C12.R19")
